@@ -42,6 +42,7 @@ func init() {
 			job(sub("c12-rel-k3-batch", sim.RelCfg("", 0, 3, 0, 8, fBld|fMove|fBNew|fBRem|fBExch|fBSet|fRelX|fQ, 0), restr1, menu1), pick(tier, 3, 4), 3),
 			job(sub("c12-rel2-k3-batch", sim.Rel2Cfg("", 3, 0, 8, fBld|fRel|fBExch|fBSet|fBRem|fQ, 0), restr2, menu2), pick(tier, 3, 4), 2),
 			job(sub("c12-rel-k3-creation-with-values", sim.RelCfg("", 0, 3, 0, 8, fBld|fBNew|fVal|fQ, 0), restr1, menu1), pick(tier, 2, 3), 1),
+			job(sub("c12-rel-r0-k3-single", sim.RelCfg("", 1, 3, 0, 8, fBld|fMove|fRel|fRelX, 0), restr1, menu1), pick(tier, 3, 4), 1),
 			job(sub("c12-rich-three-targets-batch", sim.RichThreeTargetsCfg("", 1, fBSet|fBExch|fRelX|fBRem|fQ, 0), restr1, menu1), pick(tier, 1, 2), 1),
 			job(sub("c12-rel-k4-1p-life", sim.RelCfg("", 0, 4, 1, 8, fBld|fMove|fRet|fBRem, 0), restr1, menu1), pick(tier, 4, 6), 1),
 		}
